@@ -238,6 +238,14 @@ func (e constantCycleError) Error() string {
 	return fmt.Sprintf("constant %q is defined in terms of itself", e.Name)
 }
 
+type serviceCycleError struct {
+	Name string
+}
+
+func (e serviceCycleError) Error() string {
+	return fmt.Sprintf("service %q inherits from itself", e.Name)
+}
+
 type oneWayCannotReturnError struct {
 	Name string
 }
